@@ -167,6 +167,7 @@ fn v1_corruptions(base: &[u8]) -> Vec<Corruption> {
         let bad_port = [
             "", "65536", "99999", "-1", "+80", "080", "00", "8a", "0x50", "\u{ff18}\u{ff10}",
             "+0", "-0", "1e3", "80.", "655360", "٨٠", "65616", "4294967376", "18446744073709551696",
+            "80\t", "80\u{b}", "80\u{c}", "80\n", "\t80", "\n80", "80\u{a0}", "80\u{85}", "80\u{2028}", "8\t0",
             "99999999999999999999", "340282366920938463463374607431768211536",
         ];
         for (fi, name, kind) in [
